@@ -91,6 +91,12 @@ class TIcon(T):
     def check(self, ctx, e, m):
         return []
 
+    def rust_ty(self):
+        return "ctap_types::webauthn::Icon"
+
+    def build(self, ctx, m):
+        return "ctap_types::webauthn::Icon"
+
 
 RP = TStruct("rp", "ctap_types::webauthn::PublicKeyCredentialRpEntity", [
     F("id", "id", TText("hl", 256, dlen=6), required=True),
@@ -373,7 +379,7 @@ CERTIFICATIONS = TStruct("certs", "ctap2::get_info::Certifications", [
     F("FIPS-CMVP-3", "fips_cmpv3", TUInt("u8")),
     F("FIPS-CMVP-2-PHY", "fips_cmpv2_phy", TUInt("u8")),
     F("FIPS-CMVP-3-PHY", "fips_cmpv3_phy", TUInt("u8")),
-])
+], ctor=("decode",))
 
 GI_RESP = TStruct("gi", "ctap2::get_info::Response", [
     F(0x01, "versions", TList(VERSION, 4), required=True),
@@ -461,7 +467,9 @@ MC_RESP = TStruct("mcresp", "ctap2::make_credential::Response", [
     F(0x03, "att_stmt", TAttStmt()),
     F(0x04, "ep_att", TBool()),
     F(0x05, "large_blob_key", TBytes("ba", exact=32)),
-    F(0x06, "unsigned_extension_outputs", TUnitMap("ctap2::make_credential::UnsignedExtensionOutputs")),
+    # make_credential::UnsignedExtensionOutputs is #[non_exhaustive] with neither Default nor Deserialize: no
+    # application can construct one, so member 0x06 can never be set ("private" = never present)
+    F(0x06, "unsigned_extension_outputs", None, private=True),
 ], ctor=("builder", "ctap2::make_credential::ResponseBuilder", ["fmt", "auth_data"]))
 
 GA_RESP = TStruct("garesp", "ctap2::get_assertion::Response", [
